@@ -161,6 +161,8 @@ func (c Cfg) Extenders() []goldmark.Extender {
 				out = append(out, extension.GFM)
 			case "cjk":
 				out = append(out, extension.CJK)
+			case "footnote-opt", "table-opt", "linkify-opt", "typographer-opt":
+				out = append(out, OptionBearing(m))
 			default:
 				out = append(out, Cfg{Ext: m}.Extenders()...)
 			}
@@ -205,6 +207,39 @@ func (c Cfg) Extenders() []goldmark.Extender {
 		return Custom2Extenders()
 	}
 	panic("unknown ext " + c.Ext)
+}
+
+// OptionBearing returns one extension built through its option-bearing constructor with every option it has, including
+// the wrapped html renderer options (XHTML, HardWraps, Unsafe) that are documented to apply to the extension's own nodes.
+func OptionBearing(name string) goldmark.Extender {
+	hopts := []html.Option{html.WithXHTML(), html.WithHardWraps(), html.WithUnsafe()}
+	switch name {
+	case "footnote-opt":
+		return extension.NewFootnote(
+			extension.WithFootnoteHTMLOptions(hopts...),
+			extension.WithFootnoteIDPrefix("fn-"),
+			extension.WithFootnoteLinkTitle("note ^^ (%%)"),
+			extension.WithFootnoteBacklinkTitle("back ^^ (%%)"),
+			extension.WithFootnoteLinkClass("lc-^^"),
+			extension.WithFootnoteBacklinkClass("bc-%%"),
+			extension.WithFootnoteBacklinkHTML("^^:%%"),
+		)
+	case "table-opt":
+		return extension.NewTable(extension.WithTableHTMLOptions(hopts...), extension.WithTableCellAlignMethod(extension.TableCellAlignStyle))
+	case "linkify-opt":
+		return extension.NewLinkify(
+			extension.WithLinkifyAllowedProtocols([]string{"http:", "https:", "go:"}),
+			extension.WithLinkifyURLRegexp(regexp.MustCompile(`^(?:http|https|go)://[-a-zA-Z0-9@:%._+~#=/?&]+[a-zA-Z0-9/]`)),
+			extension.WithLinkifyWWWRegexp(regexp.MustCompile(`^www\.[-a-zA-Z0-9.]+[a-z]`)),
+			extension.WithLinkifyEmailRegexp(regexp.MustCompile(`^[a-z0-9.]+@[a-z0-9]+\.[a-z]{2,}`)),
+		)
+	case "typographer-opt":
+		return extension.NewTypographer(extension.WithTypographicSubstitutions(map[extension.TypographicPunctuation]string{
+			extension.LeftDoubleQuote: "&laquo;", extension.RightDoubleQuote: "&raquo;", extension.EnDash: "&ndash;&ndash;", extension.Ellipsis: "&hellip;.",
+			extension.LeftSingleQuote: "&lsaquo;", extension.RightSingleQuote: "&rsaquo;", extension.EmDash: "&#8212;", extension.Apostrophe: "&#39;",
+		}))
+	}
+	panic("unknown option-bearing extension " + name)
 }
 
 // CustomExtenders builds every extension through its option-bearing constructor with every extension option set to a
